@@ -1325,15 +1325,29 @@ fn boundary_value(pr: &mut Prng, p: &BigUint) -> BigUint {
 /// up to 512-bit values built limb by limb from {0, 1, 2^63, 2^64-1, random}: the
 /// limb-boundary class for the 33..64-byte conversion paths (long division, U512 carries)
 pub fn limb_sparse(pr: &mut Prng, limbs: usize) -> BigUint {
+    // a quarter of the draws also mix in limbs of the two moduli (and +-1): remainders and
+    // partial quotients of the long division then tie with the modulus limb by limb
+    let with_mod = pr.chance(1, 4);
+    let md: Vec<u64> = if with_mod {
+        let p = if pr.chance(1, 2) { model::r() } else { model::q() };
+        let mut d = p.to_u64_digits();
+        d.resize(4, 0);
+        d
+    } else {
+        Vec::new()
+    };
     let mut v = BigUint::zero();
     for _ in 0..limbs {
-        let l = match pr.below(8) {
+        let l = match pr.below(if with_mod { 11 } else { 8 }) {
             0 | 1 | 2 => 0u64,
             3 => 1,
             4 => u64::MAX,
             5 => 1 << 63,
             6 => u64::MAX - 1,
-            _ => pr.next_u64(),
+            7 => pr.next_u64(),
+            8 => md[pr.usize_below(4)],
+            9 => md[pr.usize_below(4)].wrapping_sub(1),
+            _ => md[3],
         };
         v = (v << 64) + BigUint::from(l);
     }
@@ -1641,8 +1655,18 @@ pub fn generate(seed: u64) -> FldSpec {
                 }
                 8 => {
                     // a value with a boundary stored pattern run through the unary operations
-                    // (inverse, sqrt and its internal doubling/halving, neg, pow 2, Fq2 sqrt)
-                    let l = limb_patterns(&mut pr, p) % p;
+                    // (inverse, sqrt and its internal doubling/halving, neg, pow 2, Fq2 sqrt); the
+                    // pattern is imposed on the value itself or on a simple function of it that
+                    // the library computes internally (2a, a/2, -a, 3a: linear in the stored form)
+                    let x = limb_patterns(&mut pr, p) % p;
+                    let inv2 = (p + 1u32) >> 1;
+                    let l = match pr.below(6) {
+                        0 => (&x * &inv2) % p,                                  // 2a = X
+                        1 => (&x * 2u32) % p,                                   // a/2 = X
+                        2 => model::mneg(&x, p),                                // -a = X
+                        3 => (&x * model::minv(&BigUint::from(3u32), p).unwrap()) % p, // 3a = X
+                        _ => x,
+                    };
                     ops.push(FOp::FromSlice { k, dst, bytes: hex(&aimed_bytes(&l, p)), via_try: false });
                     match pr.below(5) {
                         0 | 1 => ops.push(FOp::Inverse { k, dst: a, a: dst }),
